@@ -30,10 +30,14 @@ Proof. destruct u; reflexivity. Qed.
 (** The reject [u] (if it is one) comes from the worker its task is placed on. *)
 Definition reject_fresh (s : st) (w : wid) (u : wupdate) : bool :=
   match u with
-  | UReject t _ =>
+  | UReject t rv =>
       match find_task (c_tasks (core_of s)) t with
       | Some tk => match t_state tk with
-                   | Assigned w1 _ | Prefilled w1 | Retracting w1 => N.eqb w w1
+                   | Assigned w1 rv1 =>
+                       (* ... and it names the variant the task was assigned with (the worker echoes
+                          what it was sent; [task_reject] re-queues "invalid variant" rejects too) *)
+                       N.eqb w w1 && match rv with Some v => N.eqb v rv1 | None => false end
+                   | Prefilled w1 | Retracting w1 => N.eqb w w1
                    | _ => true
                    end
       | None => true
